@@ -2,6 +2,8 @@
 
 package sender
 
+import "sort"
+
 // VerifSendOne runs the real SendFiles loop against a file list that consists
 // of the single regular file name (read through src). The peer's requests are
 // whatever st.Conn.Reader supplies. For the verification harness under /verif.
@@ -10,4 +12,27 @@ func VerifSendOne(st *Transfer, src FileSource, name string, size int64) error {
 		Files: []file{{source: src, path: name, Wpath: name, regular: true, Length: size}},
 	}
 	return st.SendFiles(fl)
+}
+
+// VerifSendFileList runs the real SendFileList with the given filter rules
+// (wire format, e.g. "- name") and returns the transfer names in the order
+// in which Transfer.Do indexes them (sorted).
+func VerifSendFileList(st *Transfer, localDir string, paths []string, rules []string) ([]string, error) {
+	excl, err := NewFilterRuleList(rules)
+	if err != nil {
+		return nil, err
+	}
+	fl, err := st.SendFileList(localDir, paths, excl)
+	if err != nil {
+		return nil, err
+	}
+	defer fl.Close()
+	sort.Slice(fl.Files, func(i, j int) bool {
+		return fl.Files[i].Wpath < fl.Files[j].Wpath
+	})
+	names := make([]string, len(fl.Files))
+	for i, f := range fl.Files {
+		names[i] = f.Wpath
+	}
+	return names, nil
 }
